@@ -22,4 +22,13 @@ SPECS = [
     # update(): shift = -observations.shape[self.stack_dimension]
     dict(name="update_shift", qual="StackedObservations.update", start=r"^shift = ", end=None, kind="expr", ret="Z",
          inputs=[("frame", "Z")], subst={"observations.shape[self.stack_dimension]": "frame"}),
+    # __init__: the declared bounds of the stacked space. The substitutions name the EXACT calls (np.repeat of the base space's low / high,
+    # n_stack times, on repeat_axis): a changed call is not translatable and the run reports the fragment as not regenerated.
+    # What np.repeat does to an array is Model/WrapperBounds.v `trepeat`, tied by correspondence (declared low/high arrays of every generated space).
+    dict(name="declared_low", qual="StackedObservations.__init__", start=r"^low = ", end=None, kind="expr", ret="Z",
+         inputs=[("np_repeat_of_base_low_n_stack_on_repeat_axis", "Z")],
+         subst={"np.repeat(observation_space.low, n_stack, axis=self.repeat_axis)": "np_repeat_of_base_low_n_stack_on_repeat_axis"}),
+    dict(name="declared_high", qual="StackedObservations.__init__", start=r"^high = ", end=None, kind="expr", ret="Z",
+         inputs=[("np_repeat_of_base_high_n_stack_on_repeat_axis", "Z")],
+         subst={"np.repeat(observation_space.high, n_stack, axis=self.repeat_axis)": "np_repeat_of_base_high_n_stack_on_repeat_axis"}),
 ]
